@@ -169,6 +169,8 @@ func paramRoleFromCallers(p *core.Prog, fn *ssa.Function, prm *ssa.Parameter) st
 type parserInfo struct {
 	fn        *ssa.Function
 	regex     string
+	narrow    []string       // conversions of a captured number that cannot represent every printable value
+	nConv     int
 	groupRole map[int]string // capture group -> role
 	groupCmp  map[int][]string
 	groupFld  map[int][]string
@@ -204,6 +206,7 @@ func analyseParser(p *core.Prog, fn *ssa.Function, regex string) *parserInfo {
 			if !ok {
 				continue
 			}
+			convWidths(ld, 2, pi)
 			for _, s := range core.ForwardSinks(ld, 8) {
 				switch {
 				case s.Callee == newRange && s.Arg == 0:
@@ -227,6 +230,38 @@ func analyseParser(p *core.Prog, fn *ssa.Function, regex string) *parserInfo {
 		}
 	})
 	return pi
+}
+
+// convWidths records, for a captured string, the numeric conversions it goes through (directly or inside a helper)
+// and flags those whose result type is narrower than 64 bits: names are printed with %010d, i.e. up to 9 999 999 999,
+// which does not fit 32 bits.
+func convWidths(v ssa.Value, depth int, pi *parserInfo) {
+	for _, s := range core.ForwardSinks(v, 3) {
+		if s.Callee == nil || s.Arg != 0 {
+			continue
+		}
+		call, ok := s.Instr.(*ssa.Call)
+		if !ok {
+			continue
+		}
+		if s.Callee.Pkg() != nil && s.Callee.Pkg().Path() == "strconv" {
+			switch s.Callee.Name() {
+			case "Atoi":
+				pi.nConv++ // int is 64 bits on every platform the server is built for
+			case "ParseUint", "ParseInt":
+				pi.nConv++
+				if k, ok := call.Call.Args[2].(*ssa.Const); !ok || (k.Int64() != 64 && k.Int64() != 0) {
+					pi.narrow = append(pi.narrow, fmt.Sprintf("strconv.%s(…, %s)", s.Callee.Name(), call.Call.Args[2]))
+				}
+			}
+			continue
+		}
+		if depth > 0 {
+			if sf := core.StaticFn(call.Common()); sf != nil && len(sf.Blocks) > 0 && len(sf.Params) > s.Arg {
+				convWidths(sf.Params[s.Arg], depth-1, pi)
+			}
+		}
+	}
 }
 
 // regexOf finds the regexp literal compiled into the package variable.
@@ -328,6 +363,7 @@ func runC10(p *core.Prog, r *core.Report) {
 			pp := strings.SplitN(fam.parser, ":", 2)
 			parser := analyseParser(p, p.Func(pp[0], pp[1]), regex)
 			r.Touch(core.FuncName(parser.fn))
+			r.Check(parser.nConv >= 2 && len(parser.narrow) == 0, "C10.R1", fam.name+"/parser-width", "the parser converts the captured numbers with a 64-bit conversion: every number a name can carry (10 digits) is read back", fmt.Sprintf("%d conversions; narrow: %v", parser.nConv, parser.narrow), p.Pos(parser.fn.Pos()))
 			for _, prn := range fam.printers {
 				q := strings.SplitN(prn, ":", 2)
 				pi := analysePrinter(p, p.Func(q[0], q[1]))
